@@ -5,7 +5,7 @@
 //                               drives it; kind "lpad": bidirectionalS graph)
 //     ompl::AdjacencyList      (kind "adj")
 //
-//   sssp replay <kind> <graph.ndjson> <shard> <nshards> <edges|-> <pairs|-> <walks> <walklen> <pathBudget>
+//   sssp replay <kind> <graph.ndjson> <shard> <nshards> <edges|-> <pairs|pairs2|-> <walks> <walklen> <pathBudget>
 //        spec -> impl: behaviours of the contract's state graph (every edge, every pair of
 //        edges, random walks, all paths up to the depth the budget allows) are executed on
 //        the real class; after every observed step the complete query battery is issued and
@@ -894,7 +894,7 @@ static double countPaths(const vt::Graph &g, int depth)
 }
 
 template <class D>
-static void replayGraph(const vt::Graph &g, vt::Report &rep, bool edges, bool pairs, long walks, int walklen, double pathBudget,
+static void replayGraph(const vt::Graph &g, vt::Report &rep, bool edges, int pairs, long walks, int walklen, double pathBudget,
                         json &extra)
 {
     auto make = []() { return D(); };
@@ -911,8 +911,13 @@ static void replayGraph(const vt::Graph &g, vt::Report &rep, bool edges, bool pa
             vt::runScenario<D>(g, path, path.size() - 1, rep, make);
         }
     }
+    // pairs == 2: only pairs whose second step removes, overwrites, clears or searches (quick tier)
     if (pairs)
-        vt::walkEveryPair<D>(g, rep, make, [&](const vt::Edge &e) { return (&e - base) % g_nshards == g_shard; });
+        vt::walkEveryPair<D>(g, rep, make, [&](const vt::Edge &e) {
+            if (pairs == 2 && (e.a == "AddArc" || e.a == "AddEdge" || e.a == "AdjAddEdge" || e.a == "AddVertex"))
+                return false;
+            return (&e - base) % g_nshards == g_shard;
+        });
     if (walks > 0)
         vt::walkRandom<D>(g, rep, make, walks / g_nshards + 1, walklen, vt::envSeed() * 1000 + g_shard);
     if (pathBudget > 0)
@@ -1223,7 +1228,7 @@ static int replayMain(const vt::Graph &g, char **argv)
 {
     vt::Report rep;
     json extra{{"edges", g.edges.size()}, {"states", g.nStates}};
-    replayGraph<D>(g, rep, std::string(argv[6]) == "edges", std::string(argv[7]) == "pairs", atol(argv[8]), atoi(argv[9]),
+    replayGraph<D>(g, rep, std::string(argv[6]) == "edges", std::string(argv[7]) == "pairs" ? 1 : std::string(argv[7]) == "pairs2" ? 2 : 0, atol(argv[8]), atoi(argv[9]),
                    atof(argv[10]), extra);
     json f = json::object();
     for (auto &c : g_find.count)
